@@ -2,7 +2,7 @@
    rowdot r v = sum_j r_j*v_j ; a system row of a kept bus is (rb, yie) = (entries at kept buses, entry at the eliminated
    bus), the eliminated bus' row is (re_, yee).  elim_row is the Schur-complement row  rb - yie/yee * re_. *)
 From Coq Require Import ZArith QArith List Bool.
-From PPV Require Import Base.QN Base.QC C28.Model C28.Proofs.
+From PPV Require Import Base.QN Base.QC C28.Model C28.Proofs C28.Kron C28.Coupling C28.Block.
 Import ListNotations.
 Open Scope Q_scope.
 
@@ -34,6 +34,92 @@ Example C28_kron_nonvacuous :
   rowdot (elim_row rb (mkC (-1) 1) re_ yee) vb ==c
     Csub (Cadd (rowdot rb vb) (Cmul (mkC (-1) 1) ve)) (Cmul (Cdiv (mkC (-1) 1) yee) (Cadd (rowdot re_ vb) (Cmul yee ve))).
 Proof. vm_compute. repeat split; try (intro H; discriminate H). Qed.
+
+(* ---- composition of the single steps (induction over the elimination order).
+   square n Y : n rows of length n ; system Y v I : Y*v == I row by row ; kron_exact k Y : the last k buses eliminated one
+   after the other (Model.elim_last each time) ; pivots_ok k Y : the k diagonal entries met on the way are non-zero ;
+   kron_cur k Y I : the currents with the eliminated buses' currents transferred (I_i - y_ie/y_ee * I_e at each step). *)
+
+(* general form: every solution (v, I) of the full system gives a solution of the reduced system on the kept buses *)
+Theorem C28_kron_sequence_preserves_system : forall k m Y v I,
+  square (m + k) Y -> length v = (m + k)%nat -> pivots_ok k Y ->
+  system Y v I -> system (kron_exact k Y) (firstn m v) (kron_cur k Y I).
+Proof. exact kron_exact_sound. Qed.
+Print Assumptions C28_kron_sequence_preserves_system.
+
+(* the defining equations of the Schur complement Ykk - Yke*inv(Yee)*Yek: for EVERY voltage vector whose k external
+   equations are homogeneous (no current at the eliminated buses), the reduced matrix applied to the kept (internal and
+   boundary) voltages gives exactly the original currents of the kept buses *)
+Theorem C28_kron_sequence_is_schur_complement : forall k m Y v I,
+  square (m + k) Y -> length v = (m + k)%nat -> pivots_ok k Y ->
+  system Y v I -> tail_zero k I ->
+  system (kron_exact k Y) (firstn m v) (firstn m I).
+Proof. exact kron_exact_schur. Qed.
+Print Assumptions C28_kron_sequence_is_schur_complement.
+
+(* the boolean pivot test evaluated by the correspondence run implies the hypothesis *)
+Theorem C28_pivot_test_sound : forall k Y, pivots_okb k Y = true -> pivots_ok k Y.
+Proof. exact pivots_okb_ok. Qed.
+Print Assumptions C28_pivot_test_sound.
+
+(* non-vacuity: a 4-bus ring with two buses eliminated: square, pivots non-zero, and a voltage vector with zero external
+   currents exists (v = 1 at every bus of a ring without shunts gives I = 0) *)
+Example C28_kron_sequence_nonvacuous :
+  square (2 + 2) ex_Y /\ pivots_ok 2 ex_Y /\
+  system ex_Y [C1; C1; C1; C1] [C0; C0; C0; C0] /\ tail_zero 2 [C0; C0; C0; C0] /\
+  kron_exact 2 ex_Y <> [].
+Proof.
+  split; [exact ex_Y_square | split; [exact ex_Y_pivots | split; [| split]]].
+  - repeat constructor; vm_compute; split; reflexivity.
+  - cbn. repeat split; reflexivity.
+  - vm_compute. discriminate.
+Qed.
+
+(* ---- the block formula itself.  mvec A v = A*v ; vzip f a b = entry-wise f ; Veq = entry-wise ==c.
+   The boundary block  Ybb - Ybe*Z*Yeb  computed by _calculate_equivalent_Ybus (Model.equivalent_Ybus_true builds exactly
+   msub Ybb (mmul (mmul Ybe Z ne) Yeb nb) from the blocks of Ybus_sorted) satisfies the defining equations of the Schur
+   complement whenever the oracle Z inverts Yee on the external voltages: for every (vb, ve) with Yeb*vb + Yee*ve == 0 it
+   maps vb to Ybb*vb + Ybe*ve - the same equations that the bus-by-bus elimination satisfies
+   (C28_kron_sequence_is_schur_complement). *)
+Theorem C28_block_formula_is_schur_complement : forall (Ybb Ybe Yeb Yee Z : M) nb ne vb ve,
+  (forall r, In r Yeb -> length r = nb) -> length vb = nb ->
+  length Yeb = ne -> (forall r, In r Z -> length r = ne) ->
+  length Ybe = length Ybb -> (forall r, In r Ybb -> length r = nb) ->
+  Veq (mvec Z (mvec Yee ve)) ve ->
+  Veq (mvec Yeb vb) (map Copp (mvec Yee ve)) ->
+  Veq (mvec (msub Ybb (mmul (mmul Ybe Z ne) Yeb nb)) vb) (vzip Cadd (mvec Ybb vb) (mvec Ybe ve)).
+Proof. exact block_formula_schur. Qed.
+Print Assumptions C28_block_formula_is_schur_complement.
+
+(* matrix product of the model is associative with the matrix-vector product *)
+Theorem C28_mmul_vec : forall A B n v, (forall r, In r B -> length r = n) -> length v = n ->
+  Veq (mvec (mmul A B n) v) (mvec A (mvec B v)).
+Proof. exact mmul_vec. Qed.
+Print Assumptions C28_mmul_vec.
+
+Example C28_block_formula_nonvacuous :
+  let Ybb := [[mkC 2 (-1)]] in let Ybe := [[mkC (-1) 1]] in let Yeb := [[mkC (-1) 1]] in let Yee := [[mkC 4 (-2)]] in
+  let Z := [[Cinv (mkC 4 (-2))]] in let vb := [mkC 1 0] in let ve := [Cmul (Cinv (mkC 4 (-2))) (mkC 1 (-1))] in
+  Veq (mvec Z (mvec Yee ve)) ve /\ Veq (mvec Yeb vb) (map Copp (mvec Yee ve)).
+Proof. exact block_formula_nonvacuous. Qed.
+
+(* ---- the implementation's block formula and the coupling block *)
+(* under the guard G28 (Ybus_be equals the transpose of Ybus_eb, entry by entry) the implementation's formula
+   (rei_generation.py: Ybus_be = Ybus_eb.T) equals the block formula with the true coupling block, for every oracle
+   inverse Z; Meq = entry-wise ==c *)
+Theorem C28_equivalent_Ybus_partial : forall Ys ni nb ne Z, G28 Ys ni nb ne = true ->
+  Meq (equivalent_Ybus Ys ni nb ne Z) (equivalent_Ybus_true Ys ni nb ne Z).
+Proof. exact equivalent_Ybus_symmetric_coupling. Qed.
+Print Assumptions C28_equivalent_Ybus_partial.
+
+Theorem C28_equivalent_Ybus_refuted :
+  G28 wit_Ys 0 1 1 = false /\
+  ~ Meq (equivalent_Ybus wit_Ys 0 1 1 [[mkC (1 # 4) 0]]) (equivalent_Ybus_true wit_Ys 0 1 1 [[mkC (1 # 4) 0]]).
+Proof. exact equivalent_Ybus_unsymmetric_refuted. Qed.
+Print Assumptions C28_equivalent_Ybus_refuted.
+
+Example C28_equivalent_Ybus_nonvacuous : G28 sym_Ys 0 1 1 = true.
+Proof. exact sym_Ys_guard. Qed.
 
 (* the implementation builds the coupling block as the TRANSPOSE of Ybus_eb (rei_generation.py: Ybus_be = Ybus_eb.T).
    Its one-bus instance is the Schur row with y_ei in place of y_ie: equal when the coupling is symmetric ... *)
